@@ -11,7 +11,9 @@ EXHAUSTIVE_GRID = True
 RULE = ("Grid, enumerated exhaustively on every run: destination kind {regular file, empty dir, "
         "non-empty dir, symlink->file, symlink->dir, dangling symlink, absent} x trashed entry kind "
         "{file, empty, tree, symlink->file, dangling symlink} x --overwrite on/off x selection "
-        "{single index, two indices conflict-first, two indices conflict-last} (210 cells); plus "
+        "{single index, two indices conflict-first, two indices conflict-last, two entries with the "
+        "SAME original location selected together - with the parent directory present or "
+        "removed -} (350 cells); plus "
         "a Hypothesis campaign over the same cells with generated names, contents and trash-dir "
         "kinds. Oracle from lstat snapshots: without --overwrite an existing destination is "
         "unchanged, exit != 0, message on stderr, pair still in the trash; with --overwrite a "
@@ -22,7 +24,8 @@ ASSUMPTIONS = ["with --overwrite and a directory at the destination only the no-
 
 DESTS = ["file", "dir_empty", "dir_nonempty", "link_file", "link_dir", "link_dangling", "absent"]
 KINDS = ["file", "empty", "tree", "link_file", "link_dangling"]
-SELS = ["single", "multi_conflict_first", "multi_conflict_last"]
+SELS = ["single", "multi_conflict_first", "multi_conflict_last", "multi_same_dest",
+        "multi_same_dest_parent_missing"]
 
 
 def examples(tier):
@@ -82,7 +85,12 @@ def run_case(case):
     elif d == "link_dangling":
         tw.nodes.append({"p": dest, "t": "l", "to": "does-not-exist"})
     others = []
-    if case["sel"] != "single":
+    twin = None
+    if case["sel"].startswith("multi_same_dest") and case["dest"] == "absent":
+        # a second, newer version of the same path: whichever is restored first, the other one
+        # finds its destination occupied and must be refused
+        twin = tw.add(tdir, base, dest, "2020-01-05T00:00:00", kind="file", content="newer version")
+    elif case["sel"] in ("multi_conflict_first", "multi_conflict_last"):
         oname = "other-" + case["other"]
         if oname == case["name"]:
             oname += "2"
@@ -91,10 +99,14 @@ def run_case(case):
         others.append(tw.add(tdir, base, wd + "/" + oname, odate, kind="file", content="second"))
     spec = tw.spec(cwd=wd)
     sandbox.build_world(spec)
+    if case["sel"] == "multi_same_dest_parent_missing" and d == "absent":
+        import shutil
+        shutil.rmtree(sandbox.wp(wd))
+        spec = dict(spec, cwd="/")
     before = sandbox.snapshot()
-    reply = "0\n" if case["sel"] == "single" else "0,1\n"
+    reply = "0,1\n" if (twin is not None or others) else "0\n"
     args = (["--overwrite"] if case["overwrite"] else [])
-    res = runner.run(spec, "trash-restore", args, stdin=reply)
+    res = runner.run(spec, "trash-restore", args + (["/"] if spec["cwd"] == "/" else []), stdin=reply)
     after = sandbox.snapshot()
     tags = dict(dest=d, entry=case["kind"], overwrite=case["overwrite"], sel=case["sel"])
     sigma = subtree(before, e["payload"])
@@ -116,6 +128,25 @@ def run_case(case):
             out.fail("refusal_exit_zero", "exit status 0 although the destination exists", **tags)
         if not res.err.strip():
             out.fail("refusal_no_message", "no message on stderr", **tags)
+    elif d == "absent" and twin is not None:
+        # exactly one of the two versions is restored, the other one stays intact in the trash,
+        # and the run reports the refusal
+        s2 = subtree(before, twin["payload"])
+        twin_in_trash = twin["info"] in after and subtree(after, twin["payload"]) == s2
+        twin_at_dest = subtree(after, dest) == s2 and twin["info"] not in after
+        ok = (at_dest and twin_in_trash and not in_trash) or (twin_at_dest and in_trash)
+        if not ok and not case["overwrite"]:
+            out.fail("same_dest_clobbered", "two entries with the same original location selected "
+                     "together: one must be restored and the other refused and kept; got first "
+                     "(trash %s, dest %s) second (trash %s, dest %s), exit %d, stderr %r" % (
+                         in_trash, at_dest, twin_in_trash, twin_at_dest, res.code, res.err[-200:]), **tags)
+        if not case["overwrite"] and res.code == 0:
+            out.fail("refusal_exit_zero", "exit status 0 although the second entry's destination "
+                     "was occupied by the first", **tags)
+        if case["overwrite"] and case["kind"] != "tree" and not (at_dest or twin_at_dest):
+            # (with a directory restored first, --overwrite of the second version goes onto a
+            # directory, which the statement leaves open)
+            out.fail("entry_lost", "--overwrite with two versions: neither is at the destination", **tags)
     elif d == "absent":
         if not (at_dest and e["info"] not in after and e["payload"] not in after and res.code == 0):
             out.fail("control_not_restored", "free destination: entry not restored exactly "
@@ -149,7 +180,7 @@ def run_case(case):
         if ok_trash == ok_dest:
             out.fail("second_entry_lost", "second selected entry is neither intact in the trash "
                      "nor restored (or both)", **tags)
-    if d != "absent":
+    if d != "absent" or twin is not None:
         out.key = [d, case["kind"], case["overwrite"], case["sel"], case["tkind"],
                    gen.name_class(case["name"])]
         out.sample = dict(case, exit=res.code)
